@@ -22,8 +22,8 @@ class Prop(BaseProp):
     shard = 200
     rule = ("Parse: index lists of length 0..5 over {0,1,2^31-1,2^31,2^31+1,2^32-1,random}, both markers, both roots, formatted and parsed; "
             "single-fault strings from a grammar (wrong root, junk token, empty inner token, negative / >= 2^32 / marked >= 2^31 / marked negative "
-            "numbers, bare marker, hex/float literals, lenient int() forms); 6..12-level paths. ByPath: by_path(s) vs iterated ckd on a wallet for valid "
-            "and single-fault strings. Repr: str(node) of derived nodes vs the formatted path. ASCII only (Python int() also accepts non-ASCII digits "
+            "numbers, bare marker, hex/float literals, lenient int() forms); 6..12-level paths. ByPath: by_path(s) vs iterated ckd for valid "
+            "and single-fault strings, on four wallets with different master keys alive in one process (the same strings looked up on each). Repr: str(node) of derived nodes vs the formatted path. ASCII only (Python int() also accepts non-ASCII digits "
             "and spaces, which the model does not cover). Non-trivial = distinct (case, output).")
     assumptions = ["Python int() is modelled for ASCII input only"]
 
@@ -65,19 +65,24 @@ class Prop(BaseProp):
         # by_path vs iterated ckd
         for p in (paths[::7] if not T else paths[::3])[:14 if not T else 60]:
             cases.append({"kind": "ByPath", "s": fmt("m", p, rng.choice("'h")), "intended": p})
+        # the same strings on other wallets of the same process (different master keys, same and other network)
+        for j, p in enumerate(paths[::7][:8] + [[], [0], [44 + H, H, H, 0, 7]]):
+            for wj in (1, 2, 3, 0):
+                cases.append({"kind": "ByPath", "s": fmt("m", p, "'h"[j % 2]) + ("/" if j % 3 == 2 and p else ""), "intended": p, "w": wj})
         for s in ["m/-1'", "m/0/-1", "m/4294967296", "m/2147483648'", "m/x", "m//1", "x/1", "m/0/-5h", "m/1x", "m/-2147483648'"]:
             cases.append({"kind": "ByPath", "s": s, "intended": None})
         for p in paths[1::5][:12 if not T else 40]:
             cases.append({"kind": "Repr", "prv": rng.random() < 0.7, "path": [i for i in p]})
         return cases
 
-    _wallet = None
+    _wallets = {}
 
-    def wallet(self):
-        if Prop._wallet is None:
+    def wallet(self, j=0):
+        # several wallets with different master keys live in the process at once (lookups must not leak between them)
+        if j not in Prop._wallets:
             from btc_hd_wallet.base_wallet import BaseWallet
-            Prop._wallet = BaseWallet.from_bip39_seed_bytes(bytes(range(64)))
-        return Prop._wallet
+            Prop._wallets[j] = BaseWallet.from_bip39_seed_bytes(bytes(range(j, j + 64)), testnet=(j == 3))
+        return Prop._wallets[j]
 
     def run_impl(self, case):
         from btc_hd_wallet.wallet_utils import Bip32Path
@@ -89,7 +94,7 @@ class Prop(BaseProp):
             except Exception:
                 return {"ob": None, "err": True}
         if k == "ByPath":
-            w = self.wallet()
+            w = self.wallet(case.get("w", 0))
 
             def o(nd):
                 return [nd.key.hex(), nd.chain_code.hex(), nd.depth, nd.index]
